@@ -231,7 +231,7 @@ class MidiTrack(object):
     def set_key(self, key="C"):
         """Add a key signature event to the track_data."""
         if isinstance(key, Key):
-            key = key.name[0]
+            key = key.key
         self.track_data += self.key_signature_event(key)
 
     def key_signature_event(self, key="C"):
